@@ -48,6 +48,7 @@ def gen(ctx):
         single.append(["a" + ch + "b", "arg"])          # a=b in command position is an assignment unless quoted
         single.append(["A" + ch, ch])
     single.append(["prog", ""])
+    single.append(["prog", "x | y", " | ", "a |\n b", "|", " |", "| "])
     single.append(["prog", "", "", "x"])
     single.append(["printf", "%s|", "", "x"])
     single.append(["", "x"])
@@ -70,6 +71,9 @@ def gen(ctx):
             name = rng.choice(NAMES[:5]) if rng.below(10) else rng.choice(NAMES)
             st.append([name] + [rand_arg(rng) for _ in range(rng.below(4))])
         pipes.append(st)
+    # arguments that look like the pipeline's own separator
+    pipes.append([["prog", "x | y"], ["P_1", " | "]])
+    pipes.append([["prog", "a |\n    b", "|"], ["ls", " |", "| "], ["a-b", "'| |'"]])
     return single, pipes
 
 
@@ -151,6 +155,10 @@ def check(ctx):
     if len(impl) != len(cases) or len(model) != len(cases):
         ctx.broken_correspondence({"what": f"answer count mismatch impl={len(impl)} model={len(model)} cases={len(cases)}"})
         return
+    # the pretty Debug form, where it differs from the plain one, rides along as ` alt=<hex>`
+    alts = [next((t[4:] for t in a.split()[2:] if t.startswith("alt=")), None) for a in impl]
+    impl = [" ".join(a.split()[:2]) if a.startswith("ok ") else a for a in impl]
+    cov["pretty_forms_differing"] = sum(1 for x in alts if x)
     # (A) renderer correspondence
     mism = 0
     for (k, c), a, b in zip(cases, impl, model):
@@ -163,10 +171,16 @@ def check(ctx):
     cov["renderer_mismatches"] = mism
     # (B) direct oracle on the implementation's text + (C) spec validation, both through the real sh
     reqs, meta = [], []
-    for (k, c), a in zip(cases, impl):
+    for ((k, c), a), alt in zip(zip(cases, impl), alts):
         if not a.startswith("ok "):
             continue
         t = a.split()[1]
+        if alt:
+            # `{:#?}` printed something else than `{:?}`: that text must evaluate to the same command(s)
+            if k == "sh":
+                reqs.append(f"words {alt}"); meta.append(("words", c, alt))
+            else:
+                reqs.append(f"cmds {shdir} {alt}"); meta.append(("cmds", c, alt))
         if k == "sh":
             reqs.append(f"words {t}"); meta.append(("words", c, t))
             if c[0] in NAMES or link(c[0]):
